@@ -25,7 +25,7 @@ def run(ctx):
         ctx, "fault_enumeration",
         "a real client command over an arbitrary upstream list, every listed endpoint being either a REAL socketace server (own recording "
         "target that announces itself with a banner, own connection-counting relay in front) or a scripted failing endpoint. "
-        "(A) lists of 1-4 upstreams over {tcp, tcp+tls, ws, wss = web-socket behind a TLS listener, udp}; every upstream object is made from its written address the way the command line does it (Upstreams.UnmarshalFlag), and the scheme of an address is written in every accepted spelling in turn, separately for every (kind, manner): ws as http:// | ws://, wss as https:// | wss://, udp as udp:// | udp4:// (the reference model does not know spellings); a fixed block runs every spelling x {server that can secure the session, server that cannot} x --secure off/on, alone and ahead of an upstream that meets the requirement; (every second list of 2+ entries spells its hosts alternately localhost / 127.0.0.1, each real endpoint holding a certificate valid for its own spelling only; half of the connections served by a reachable forward address end with a reset from the forward target or an aborting application, after which the upstreams must still be untouched): every failing subset for lengths 1-3 (x3 quick / x10 thorough with manners and "
+        "(A) lists of 1-4 upstreams over {tcp, tcp+tls, ws, wss = web-socket behind a TLS listener, udp}; every upstream object is made from its written address the way the command line does it (Upstreams.UnmarshalFlag), and the scheme of an address is written in every accepted spelling in turn, separately for every (kind, manner): ws as http:// | ws://, wss as https:// | wss://, udp as udp:// | udp4:// (the reference model does not know spellings); a fixed block runs every spelling x {server that can secure the session, server that cannot} x --secure off/on, alone and ahead of an upstream that meets the requirement; (every second list of 2+ entries spells its hosts in turn localhost / 127.0.0.1 / [::1] - the IPv6 literal with server, relay and scripted endpoints listening on ::1; probed once, skipped and noted in the evidence where the machine has no ::1 -, each real endpoint holding a certificate valid for its own spelling only (DNS localhost / IP 127.0.0.1 / IP ::1), the verifying client trusting both issuing CAs; udp4:// becomes udp6:// on ::1; a fixed block runs every kind x every host spelling x --secure off/on, alone and ahead of a healthy upstream spelled differently; the reuse waves and the loss histories on tcp / tcp+tls / ws take the host spellings in turn as well; half of the connections served by a reachable forward address end with a reset from the forward target or an aborting application, after which the upstreams must still be untouched): every failing subset for lengths 1-3 (x3 quick / x10 thorough with manners and "
         "kinds handed out round-robin) and a seeded sample of 4-entry lists; failing manners {refused, handshake answered 400 / garbage / closed, "
         "plain server while --secure, silent = accepts and never answers (also after the carrier's own TLS / websocket handshake; udp: closed port; "
         "also only after a valid '200' to the announce request, and inside StartTLS after '200 StartTLS' + '101' - on tcp, tcp+tls, ws, udp; wss: silent before and after the TLS handshake; a dns:// (DNS tunnel) upstream with 1, 2, 3 resolver candidates ALL of which are dead - closed ports, a resolver answering rcode REFUSED, one answering garbage (thorough: one that never answers) - written ?dns=a,b / ?dns=a&dns=b / ?dns=udp://a,udp://b, the name servers of /etc/resolv.conf coming after them, listed before / after a healthy upstream of another kind, behind a failing one, and alone; the resolvers are bare UDP sockets, no DNS server is involved; judged like a silent upstream, and when the windows have run out while the process burns CPU the verdict is a violation only if one dead resolver has by then been contacted from >= 1000 different client sockets (the reference model dials a candidate once per attempt; 2 seen on the unchanged tree), else inconclusive)}; "
